@@ -38,6 +38,7 @@ def write(prop, tier, seed, cfg, C, sigs, samples, notes, known, n_new, wall, in
         "violations": int(n_new),
     }
     # evidence/ describes /repo only; a run against another tree (VERIF_REPO=...) writes to a scratch directory
-    outdir = common.EVIDENCE if os.path.realpath(common.REPO) == "/repo" else os.path.join(common.WORK, "evidence-other-tree")
+    scratch = os.path.realpath(common.REPO) != "/repo" or os.environ.get("VERIF_EVIDENCE_SCRATCH") == "1"   # seeded-mutant runs patch /repo itself
+    outdir = os.path.join(common.WORK, "evidence-other-tree") if scratch else common.EVIDENCE
     os.makedirs(outdir, exist_ok=True)
     common.dump_file(common.plain(ev), os.path.join(outdir, prop + ".json"), indent=1)
